@@ -575,6 +575,7 @@ func (x *Exec) nativeCall(st *State, fr *Frame, ci calleeInfo, pos token.Pos) (V
 	case "(*sync.Mutex).Unlock", "(*sync.RWMutex).Unlock":
 		h := st.heapGet("Held", ArrSort(SInt, SBool))
 		x.safe(st, "unlock", Select(h, a[0].T()), pos, "unlock of unlocked mutex")
+		x.lockReleased(st, fr, a[0].T(), pos)
 		st.heapSet("Held", Store(h, a[0].T(), False))
 		return Val{}, true
 	case "http.CanonicalHeaderKey", "textproto.CanonicalMIMEHeaderKey":
@@ -629,39 +630,87 @@ func (x *Exec) nativeCall(st *State, fr *Frame, ci calleeInfo, pos token.Pos) (V
 	return Val{}, false
 }
 
-// lockAcquired: state guarded by this mutex may have been changed by other goroutines while it was not held.
-func (x *Exec) lockAcquired(st *State, fr *Frame, mu *T) {
-	// mu is sub_<S>_<f>(base); find guarded fields of S and forget the contents of the maps they hold
+// lockOwner finds the declared type whose mutex field the sub-reference mu denotes.
+func (x *Exec) lockOwner(mu *T) (tc *TypeContract, named *types.Named, base *T) {
 	if !strings.HasPrefix(mu.Op, "sub_") || len(mu.Args) != 1 {
-		return
+		return nil, nil, nil
 	}
-	base := mu.Args[0]
-	for _, tc := range x.prog.contracts.Types {
-		for field, m := range tc.Guarded {
-			named := x.prog.namedType(tc.PkgPath, tc.Name)
-			if named == nil {
-				continue
-			}
-			stru := named.Underlying().(*types.Struct)
-			mi := -1
-			fi := -1
-			for i := 0; i < stru.NumFields(); i++ {
-				if stru.Field(i).Name() == m {
-					mi = i
-				}
-				if stru.Field(i).Name() == field {
-					fi = i
-				}
-			}
-			if mi < 0 || fi < 0 || subRefName(named, mi) != mu.Op {
-				continue
-			}
-			fv := st.loadFieldOf(base, named, fi)
-			if mt, ok := fv.Typ.Underlying().(*types.Map); ok {
-				dom, domS, vals, valS := mapArrays(mt)
-				x.havocLoc(st, Loc{Arrays: append([]string{dom}, vals...), Sorts: append([]Sort{domS}, valS...), Ref: fv.T()})
+	for _, c := range x.prog.contracts.Types {
+		n := x.prog.namedType(c.PkgPath, c.Name)
+		if n == nil {
+			continue
+		}
+		stru, ok := n.Underlying().(*types.Struct)
+		if !ok {
+			continue
+		}
+		for i := 0; i < stru.NumFields(); i++ {
+			if isStruct(stru.Field(i).Type()) && subRefName(n, i) == mu.Op {
+				return c, n, mu.Args[0]
 			}
 		}
+	}
+	return nil, nil, nil
+}
+
+// lockAcquired: state guarded by this mutex may have been changed by other goroutines while it was not held;
+// it satisfies the declared type invariant (which every Unlock re-establishes).
+func (x *Exec) lockAcquired(st *State, fr *Frame, mu *T) {
+	tc, named, base := x.lockOwner(mu)
+	if tc == nil {
+		return
+	}
+	stru := named.Underlying().(*types.Struct)
+	for field, m := range tc.Guarded {
+		mi, fi := -1, -1
+		for i := 0; i < stru.NumFields(); i++ {
+			if stru.Field(i).Name() == m {
+				mi = i
+			}
+			if stru.Field(i).Name() == field {
+				fi = i
+			}
+		}
+		if mi < 0 || fi < 0 || subRefName(named, mi) != mu.Op {
+			continue
+		}
+		fv := st.loadFieldOf(base, named, fi)
+		if mt, ok := fv.Typ.Underlying().(*types.Map); ok {
+			dom, domS, vals, valS := mapArrays(mt)
+			x.havocLoc(st, Loc{Arrays: append([]string{dom}, vals...), Sorts: append([]Sort{domS}, valS...), Ref: fv.T()})
+		}
+	}
+	env := x.envFor(st, x.topFrame(fr))
+	env.vars["self"] = Val{Typ: types.NewPointer(named), C: []*T{base}}
+	for _, c := range tc.Invariants {
+		g, err := env.EvalBool(c.Expr)
+		if err != nil {
+			x.errorf("%s:%d: %v", c.File, c.Line, err)
+			continue
+		}
+		st.Assume(g)
+	}
+}
+
+// lockReleased: the type invariant of the guarded state must hold when the lock is given up.
+func (x *Exec) lockReleased(st *State, fr *Frame, mu *T, pos token.Pos) {
+	tc, named, base := x.lockOwner(mu)
+	if tc == nil {
+		return
+	}
+	env := x.envFor(st, x.topFrame(fr))
+	env.vars["self"] = Val{Typ: types.NewPointer(named), C: []*T{base}}
+	for i, c := range tc.Invariants {
+		g, err := env.EvalBool(c.Expr)
+		if err != nil {
+			x.errorf("%s:%d: %v", c.File, c.Line, err)
+			continue
+		}
+		lbl := c.Label
+		if lbl == "" {
+			lbl = fmt.Sprintf("t%d", i+1)
+		}
+		st.oblige("inv-type", tc.Name+":"+lbl, g, pos, c.Expr, propsOr(c.Props, x.safetyProps()))
 	}
 }
 
